@@ -43,6 +43,7 @@ import (
 	"github.com/libp2p/go-libp2p/core/crypto"
 
 	"github.com/ucan-wg/go-ucan/did"
+	"github.com/ucan-wg/go-ucan/pkg/policy/limits"
 	"github.com/ucan-wg/go-ucan/token/internal/varsig"
 )
 
@@ -137,6 +138,22 @@ func FromIPLD[T Tokener](node datamodel.Node) (T, error) {
 	issuerNode, err := info.tokenPayloadNode.LookupByString("iss")
 	if err != nil {
 		return zero, err
+	}
+
+	// The integer fields of the payload (time bounds) must be safe integers: binding an
+	// unsigned value above the int64 range to the schema would otherwise silently wrap it
+	// into a different, possibly valid, value than the one that was signed.
+	for it := info.tokenPayloadNode.MapIterator(); it != nil && !it.Done(); {
+		k, v, err := it.Next()
+		if err != nil {
+			return zero, err
+		}
+		if v.Kind() == datamodel.Kind_Int {
+			if err := limits.ValidateIntegerBoundsIPLD(v); err != nil {
+				key, _ := k.AsString()
+				return zero, fmt.Errorf("field %q: %w", key, err)
+			}
+		}
 	}
 
 	// Replaces the datamodel.Node in tokenPayloadNode with a
